@@ -1,6 +1,322 @@
-//! C04 — implementation side of the correspondence (stub).
+//! C04 — state identity: implementation side.
+//! Stream 1: values of the hashable universe, each built several ways; the recorded `write_*` calls must be
+//!           the model's token stream (M) and all builds of one logical value must agree (O, expectation `eq`).
+//! Stream 2: near pairs (one small change); recorded streams equal <=> semantically equal <=> `==` (O).
+//! Stream 3: reachable states of small actor systems: BFS `unique_state_count` against an independent
+//!           structural count (V on mismatch), plus M/O cases on the reachable states themselves.
+use srh::hash_util::*;
 use srh::out::*;
+use srh::rec::{record, toks_sx};
+use srh::rng::Rng;
+use stateright::actor::{ActorModelState, Envelope, Id, Network};
+use stateright::util::{DenseNatMap, HashableHashMap, HashableHashSet, VectorClock};
+use std::collections::{BTreeMap, BTreeSet, VecDeque};
+
+type StdRS = std::collections::hash_map::RandomState;
+
+fn m_case<T: U>(out: &mut Out, x: &T) -> Vec<srh::rec::Tok> {
+    let t = record(x);
+    out.m(&format!("toks {} {} {}", T::ty(), x.sx(), graph_sx(&full_graph(x))), &toks_sx(&t));
+    t
+}
+fn o_pair<T: U>(out: &mut Out, a: &T, b: &T, want: &str) -> (bool, bool) {
+    let se = record(a) == record(b);
+    let ie = a == b;
+    out.o(&format!("o-pair {} {} {} {} {} {}", T::ty(), a.sx(), b.sx(), srh::sx::b(se), srh::sx::b(ie), want));
+    (se, ie)
+}
+
+fn run<T: U>(out: &mut Out, r: &mut Rng, n: usize) {
+    let ty = T::ty();
+    for i in 0..n {
+        let v = T::gen(r, 3);
+        let t0 = m_case(out, &v);
+        out.distinct(&(ty.clone(), v.sx()));
+        // several builds of the same logical value
+        for _ in 0..2 {
+            let b = v.rebuild(r);
+            let t = m_case(out, &b);
+            let (se, ie) = o_pair(out, &v, &b, "eq");
+            out.stat("rebuilds");
+            if b.sx() != v.sx() { out.stat("rebuilds-with-different-iteration-order-or-padding"); }
+            if !se || !ie || t != t0 { out.stat("rebuilds-DIFFERING"); }
+        }
+        // near pairs
+        for _ in 0..2 {
+            let w = v.mutate(r).rebuild(r);
+            m_case(out, &w);
+            let (se, ie) = o_pair(out, &v, &w, "any");
+            out.stat(if ie { "near-pairs-equal" } else { "near-pairs-different" });
+            if se != ie { out.stat("near-pairs-stream-vs-eq-DISAGREE"); }
+            out.distinct(&(ty.clone(), v.sx(), w.sx()));
+        }
+        // an unrelated pair
+        if i % 4 == 0 {
+            let w = T::gen(r, 3);
+            o_pair(out, &v, &w, "any");
+        }
+        if i == 0 { out.sample(&format!("toks {} {} => {}", ty, v.sx(), toks_sx(&t0))); }
+    }
+    out.stat_n(&format!("type {}", if ty.len() > 60 { &ty[..60] } else { &ty }), n as u64);
+}
+
+
+// ---------------------------------------------------------------- stream 3: reachable states of small actor systems
+
+use stateright::actor::{Actor, ActorModel, LossyNetwork, Out as AOut};
+use stateright::{Checker, Expectation, Model};
+use std::borrow::Cow;
+
+/// An actor whose handlers are a pseudo-random but deterministic function of (seed, event, state, argument).
+#[derive(Clone)]
+struct SysActor {
+    seed: u64,
+    n: usize,
+}
+fn mix(mut z: u64) -> u64 {
+    z = z.wrapping_add(0x9E37_79B9_7F4A_7C15);
+    z = (z ^ (z >> 30)).wrapping_mul(0xBF58_476D_1CE4_E5B9);
+    z = (z ^ (z >> 27)).wrapping_mul(0x94D0_49BB_1331_11EB);
+    z ^ (z >> 31)
+}
+impl SysActor {
+    fn roll(&self, id: Id, kind: u64, s: u8, arg: u64, salt: u64) -> u64 {
+        mix(mix(self.seed ^ (usize::from(id) as u64) << 56 ^ kind << 48 ^ (s as u64) << 40 ^ arg << 8 ^ salt))
+    }
+    fn commands(&self, id: Id, kind: u64, s: u8, arg: u64, o: &mut AOut<Self>) {
+        let x = self.roll(id, kind, s, arg, 0);
+        for j in 0..(x >> 16) % 3 {
+            let y = self.roll(id, kind, s, arg, j + 1);
+            let a = (y >> 8) % 2;
+            match y % 8 {
+                0 | 1 => {
+                    // mostly to a peer, sometimes to itself or to an actor that does not exist
+                    let dst = (usize::from(id) + 1 + ((y >> 20) % 3) as usize) % (self.n + 1);
+                    o.send(Id::from(dst), a as u8)
+                }
+                2 | 3 => o.set_timer(a as u8, stateright::actor::model_timeout()),
+                4 => o.cancel_timer(a as u8),
+                5 | 6 => o.choose_random(["a", "b"][a as usize], if (y >> 12) % 2 == 0 { vec![0u8, 1] } else { vec![1u8] }),
+                _ => o.remove_random(["a", "b"][a as usize]),
+            }
+        }
+    }
+    fn react(&self, id: Id, kind: u64, arg: u64, state: &mut Cow<u8>, o: &mut AOut<Self>) {
+        let s = **state;
+        let x = self.roll(id, kind, s, arg, 0);
+        if x % 4 < 2 {
+            *state.to_mut() = ((x >> 8) % 3) as u8;
+        }
+        if x % 8 != 7 {
+            self.commands(id, kind, s, arg, o);
+        }
+    }
+}
+impl Actor for SysActor {
+    type Msg = u8;
+    type State = u8;
+    type Timer = u8;
+    type Random = u8;
+    fn on_start(&self, id: Id, o: &mut AOut<Self>) -> u8 {
+        self.commands(id, 0, 0, 0, o);
+        (self.roll(id, 0, 0, 0, 99) % 3) as u8
+    }
+    fn on_msg(&self, id: Id, state: &mut Cow<u8>, src: Id, msg: u8, o: &mut AOut<Self>) {
+        self.react(id, 1, (usize::from(src) as u64) * 4 + msg as u64, state, o)
+    }
+    fn on_timeout(&self, id: Id, state: &mut Cow<u8>, timer: &u8, o: &mut AOut<Self>) {
+        self.react(id, 2, *timer as u64, state, o)
+    }
+    fn on_random(&self, id: Id, state: &mut Cow<u8>, random: &u8, o: &mut AOut<Self>) {
+        self.react(id, 3, *random as u64, state, o)
+    }
+}
+type SysState = ActorModelState<SysActor, u8>;
+
+/// canonical structural key of a state, computed without `Hash`/`Eq` of the crate's types:
+/// every component that can influence future behaviour, hash tables sorted, choice padding ignored
+fn canon_key(st: &SysState) -> String {
+    let actors: Vec<u8> = st.actor_states.iter().map(|a| **a).collect();
+    let timers: Vec<Vec<u8>> = st
+        .timers_set
+        .iter()
+        .map(|t| {
+            let mut v: Vec<u8> = t.iter().cloned().collect();
+            v.sort();
+            v
+        })
+        .collect();
+    let envk = |e: &Envelope<u8>| (usize::from(e.src), usize::from(e.dst), e.msg);
+    let net = match &st.network {
+        Network::UnorderedDuplicating(s, last) => {
+            let mut v: Vec<_> = s.iter().map(envk).collect();
+            v.sort();
+            format!("UD{:?}last{:?}", v, last.as_ref().map(envk))
+        }
+        Network::UnorderedNonDuplicating(m) => {
+            let mut v: Vec<_> = m.iter().map(|(e, c)| (envk(e), *c)).collect();
+            v.sort();
+            format!("UN{:?}", v)
+        }
+        Network::Ordered(m) => {
+            let v: Vec<_> = m.iter().map(|((s, d), q)| (usize::from(*s), usize::from(*d), q.iter().cloned().collect::<Vec<u8>>())).collect();
+            format!("OR{:?}", v)
+        }
+    };
+    let mut pending = vec![];
+    for (i, c) in st.random_choices.iter().enumerate() {
+        if !c.map.is_empty() {
+            let mut v: Vec<(String, Vec<u8>)> = c.map.iter().map(|(k, v)| (k.clone(), v.clone())).collect();
+            v.sort();
+            pending.push((i, v));
+        }
+    }
+    format!("{:?}|{}|{:?}|{}|{:?}|{:?}", actors, st.history, timers, net, st.crashed, pending)
+}
+
+fn systems(out: &mut Out, r: &mut Rng, count: usize) {
+    let mut done = 0;
+    let mut attempts = 0;
+    while done < count && attempts < count * 20 {
+        attempts += 1;
+        let n = 1 + r.below(3);
+        let seed = r.next();
+        let kind = r.below(3);
+        let lossy = r.chance(1, 3);
+        let max_crashes = r.below(3);
+        let limit = 1 + r.below(3);
+        let init_env: Vec<Envelope<u8>> =
+            (0..r.below(2)).map(|_| Envelope { src: Id::from(r.below(n)), dst: Id::from(r.below(n)), msg: r.below(2) as u8 }).collect();
+        let net = match kind {
+            0 => Network::new_unordered_duplicating(init_env),
+            1 => Network::new_unordered_nonduplicating(init_env),
+            _ => Network::new_ordered(init_env),
+        };
+        let model = ActorModel::<SysActor, usize, u8>::new(limit, 0)
+            .actors((0..n).map(|_| SysActor { seed, n }))
+            .init_network(net)
+            .lossy_network(if lossy { LossyNetwork::Yes } else { LossyNetwork::No })
+            .max_crashes(max_crashes)
+            .record_msg_in(|_, h, env| if *env.msg == 0 { Some((h + 1) % 3) } else { None })
+            .record_msg_out(|_, h, env| if *env.msg == 1 && *h == 0 { Some(2) } else { None })
+            .within_boundary(|limit, st| st.network.len() <= *limit)
+            .property(Expectation::Always, "true", |_, _| true);
+        let desc = format!("n={} seed={} net={} lossy={} max_crashes={} limit={}", n, seed, kind, lossy, max_crashes, limit);
+
+        // independent walk of the Model trait with the canonical structural key
+        let cap = 6000;
+        let mut seen: BTreeMap<String, SysState> = BTreeMap::new();
+        let mut queue: VecDeque<SysState> = VecDeque::new();
+        for s in model.init_states() {
+            if Model::within_boundary(&model, &s) && !seen.contains_key(&canon_key(&s)) {
+                seen.insert(canon_key(&s), s.clone());
+                queue.push_back(s);
+            }
+        }
+        let mut too_big = false;
+        while let Some(s) = queue.pop_front() {
+            let mut acts = vec![];
+            model.actions(&s, &mut acts);
+            for a in acts {
+                if let Some(t) = model.next_state(&s, a) {
+                    if !Model::within_boundary(&model, &t) {
+                        continue;
+                    }
+                    let k = canon_key(&t);
+                    if !seen.contains_key(&k) {
+                        seen.insert(k, t.clone());
+                        queue.push_back(t);
+                    }
+                }
+            }
+            if seen.len() > cap {
+                too_big = true;
+                break;
+            }
+        }
+        if too_big {
+            out.stat("systems-skipped-too-large");
+            continue;
+        }
+        done += 1;
+        let expected = seen.len();
+        let checker = model.clone().checker().threads(1).spawn_bfs().join();
+        let unique = checker.unique_state_count();
+        out.stat("systems");
+        out.stat_n("system-states-total", expected as u64);
+        out.stat(&format!("system-size-{}", match expected { 0..=1 => "1", 2..=9 => "2..9", 10..=99 => "10..99", 100..=999 => "100..999", _ => ">=1000" }));
+        out.stat(&format!("system-net-{}", ["unordered-dup", "unordered-nondup", "ordered"][kind]));
+        let states: Vec<&SysState> = seen.values().collect();
+        if states.iter().any(|s| s.crashed.iter().any(|c| *c)) { out.stat("systems-with-crashed-states"); }
+        if states.iter().any(|s| s.random_choices.iter().any(|c| !c.map.is_empty())) { out.stat("systems-with-pending-choices"); }
+        if states.iter().any(|s| s.timers_set.iter().any(|t| t.iter().count() > 0)) { out.stat("systems-with-timers"); }
+        if unique != expected {
+            out.v("unique-state-count", &format!("system {}: BFS unique_state_count={} but {} structurally distinct reachable states", desc, unique, expected));
+        }
+        out.distinct(&("system", desc.clone()));
+        if done <= 2 { out.sample(&format!("system {} => {} reachable states, BFS unique={}", desc, expected, unique)); }
+        // the reachable states themselves through the model, and pairs of them through the oracle
+        let ty = state_ty::<SysActor, u8>();
+        let pick = 4.min(states.len());
+        for _ in 0..pick {
+            let a = states[r.below(states.len())];
+            let b = states[r.below(states.len())];
+            let mut g = Graph::new();
+            state_graph(a, &mut g);
+            let ta = record(a);
+            out.m(&format!("toks {} {} {}", ty, state_sx(a), graph_sx(&g)), &toks_sx(&ta));
+            let se = ta == record(b);
+            let ie = a == b;
+            let same_key = canon_key(a) == canon_key(b);
+            out.o(&format!("o-pair {} {} {} {} {} {}", ty, state_sx(a), state_sx(b), srh::sx::b(se), srh::sx::b(ie), if same_key { "eq" } else { "any" }));
+            if se && !same_key { out.v("reachable-collision", &format!("system {}: two structurally distinct reachable states feed equal streams: {} / {}", desc, state_sx(a), state_sx(b))); }
+            out.stat("reachable-state-pairs");
+        }
+    }
+}
+
+type St1 = ActorModelState<GA<u8, u8, u8, u8>, u8>;
+type St2 = ActorModelState<GA<(u8, Vec<Id>), (Id, String), (), Id>, Vec<Envelope<u8>>>;
+type St3 = ActorModelState<GA<HashableHashSet<u8>, String, String, (u8, u8)>, ()>;
+type St4 = ActorModelState<GA<VectorClock, Option<u8>, Id, Vec<u8>>, HashableHashMap<Id, u8>>;
+
 fn main() {
-    let out = Out::new();
+    if std::env::var("C04_LOUD").is_err() { quiet_panics(); }
+    let mut out = Out::new();
+    out.max_samples = 12;
+    let mut r = Rng::new(seed());
+    let k = if thorough() { 12 } else { 1 };
+    macro_rules! go { ($n:expr; $($t:ty),* $(,)?) => { $( run::<$t>(&mut out, &mut r, $n * k); )* } }
+    // scalars and std containers
+    go!(10; u8, u32, u64, usize, bool, (), String, Id, Option<u8>, Option<String>, (u8, u32), (String, String),
+        (Option<u8>, Option<u8>), ((), u8));
+    go!(30; Vec<u8>, Vec<u32>, Vec<u64>, Vec<usize>, Vec<bool>, Vec<Id>, Vec<String>, Vec<()>, Vec<(u8, u8)>,
+        Vec<Option<u8>>, Vec<Vec<u8>>, VecDeque<u8>, VecDeque<String>, VecDeque<Vec<u8>>, BTreeMap<u8, u8>,
+        BTreeMap<String, Vec<u8>>, BTreeMap<(Id, Id), VecDeque<u8>>, BTreeSet<u8>, BTreeSet<Id>, BTreeSet<String>,
+        (Vec<u8>, Vec<u8>), (Vec<String>, Vec<String>), (BTreeSet<u8>, BTreeSet<u8>), (String, Vec<u8>),
+        Vec<BTreeSet<u8>>, Vec<VecDeque<u8>>, DenseNatMap<Id, u8>, DenseNatMap<Id, String>, DenseNatMap<Id, Id>,
+        DenseNatMap<Id, Vec<u8>>, (DenseNatMap<Id, u8>, DenseNatMap<Id, u8>));
+    // the crate's hashable collections, nested and side by side
+    go!(60; HashableHashSet<u8>, HashableHashSet<String>, HashableHashSet<Id>, HashableHashSet<()>,
+        HashableHashSet<u8, StdRS>, HashableHashSet<(u8, String)>, HashableHashSet<Option<u8>>,
+        HashableHashSet<Vec<u8>>, HashableHashSet<HashableHashSet<u8>>, HashableHashSet<BTreeSet<u8>>,
+        HashableHashMap<u8, u8>, HashableHashMap<String, Vec<u8>>, HashableHashMap<u8, u8, StdRS>,
+        HashableHashMap<Id, HashableHashSet<u8>>, HashableHashMap<u8, HashableHashMap<u8, u8>>,
+        HashableHashMap<Vec<u8>, Vec<u8>>, HashableHashMap<String, String>,
+        (HashableHashSet<u8>, HashableHashSet<u8>), (HashableHashSet<String>, HashableHashSet<String>),
+        (HashableHashMap<u8, u8>, HashableHashMap<u8, u8>), (HashableHashSet<u8>, HashableHashSet<u8>, HashableHashSet<u8>),
+        (HashableHashSet<u8>, Vec<u64>), (HashableHashSet<u64>, HashableHashSet<u64>),
+        Vec<HashableHashSet<u8>>, Vec<HashableHashSet<u64>>, Vec<HashableHashMap<u8, u8>>, VecDeque<HashableHashSet<u8>>,
+        Option<HashableHashSet<u8>>, BTreeMap<u8, HashableHashSet<u8>>, Vec<Vec<HashableHashSet<u8>>>,
+        HashableHashSet<(HashableHashSet<u8>, HashableHashSet<u8>)>, Vec<(HashableHashSet<u8>, HashableHashMap<u8, u8>)>);
+    // timers, clocks, envelopes, networks, choices
+    go!(60; Timers<u8>, Timers<()>, Timers<String>, Timers<Id>, Vec<Timers<u8>>, Vec<Timers<()>>, Vec<Timers<String>>,
+        (Timers<u8>, Timers<u8>), VectorClock, Vec<VectorClock>, (VectorClock, VectorClock), HashableHashSet<VectorClock>,
+        (VectorClock, Vec<u32>), Envelope<u8>, Envelope<String>, Vec<Envelope<Id>>, Network<u8>, Network<String>, Network<Id>,
+        Network<(u8, Id)>, Network<Vec<u8>>, Network<Option<u8>>, (Network<u8>, Network<u8>), Vec<Network<u8>>,
+        HashableHashMap<String, Vec<u8>>, HashableHashMap<String, Vec<Id>>, Vec<HashableHashMap<String, Vec<u8>>>);
+    // actor-system states
+    go!(250; St1, St2, St3, St4);
+    systems(&mut out, &mut r, 120 * k);
     out.finish();
 }
